@@ -53,6 +53,36 @@ def o_geo(case):
         l1, l2 = xy_to_latlon(float(xs[k]), float(ys[k]), rlat, rlon)
         if not (l1 == la[k] and l2 == lo[k]):
             return fail("C17/array", "array-valued conversion differs from the scalar one", None, [float(l1), float(l2)], [float(la[k]), float(lo[k])], 0)
+    # array layouts: the inverse transform is element-wise for ANY pair of equally shaped (or broadcastable) arrays - scattered
+    # offsets, 'ij' and 'xy' meshgrids, rotated grids, 3-D stacks, a scalar against an array
+    ax = np.array([x0, -0.7 * x0, 0.2 * x0 + 11.0, 3.0])
+    ay = np.array([y0, 0.4 * y0 - 7.0, -y0])
+    c, s_ = np.cos(0.5), np.sin(0.5)
+    Gx, Gy = np.meshgrid(ax, ay)
+    layouts = [("scattered 2-D", np.array([[x0, -x0, 5.0], [0.1 * x0, 2.0, -0.3 * x0]]), np.array([[y0, 0.3 * y0, -y0], [1.0, -0.6 * y0, 0.2 * y0]])),
+               ("ij meshgrid",) + tuple(np.meshgrid(ax, ay, indexing="ij")),
+               ("xy meshgrid", Gx, Gy),
+               ("rotated grid", c * Gx - s_ * Gy, s_ * Gx + c * Gy),
+               ("3-D stack", np.stack([Gx, -Gx]), np.stack([Gy, 0.5 * Gy])),
+               ("scalar x, array y", float(x0), ay), ("array x, scalar y", ax, float(y0)),
+               ("column against row", ax[:, None], ay[None, :])]
+    for (nm, XX, YY) in layouts:
+        la, lo = xy_to_latlon(XX, YY, rlat, rlon)
+        XB, YB = np.broadcast_arrays(np.asarray(XX, dtype=float), np.asarray(YY, dtype=float))
+        la, lo = np.asarray(la, dtype=float), np.asarray(lo, dtype=float)
+        try:
+            # latitude depends on y only and longitude on x only: each may come back in the shape of its own argument
+            la, lo = np.broadcast_to(la, XB.shape), np.broadcast_to(lo, XB.shape)
+        except ValueError:
+            pass
+        if la.shape != XB.shape or lo.shape != XB.shape:
+            return fail("C17/array", "array-valued conversion (%s) returns shapes %s / %s for inputs broadcast to %s" % (nm, la.shape, lo.shape, XB.shape),
+                        None, list(XB.shape), [list(la.shape), list(lo.shape)], 0)
+        for idx in np.ndindex(XB.shape):
+            l1, l2 = xy_to_latlon(float(XB[idx]), float(YB[idx]), rlat, rlon)
+            if not (l1 == la[idx] and l2 == lo[idx]):
+                return fail("C17/array", "array-valued conversion (%s) differs from the scalar one at %s" % (nm, (idx,)), None,
+                            [float(l1), float(l2)], [float(la[idx]), float(lo[idx])], 0)
     # TowerConfig.compute_local_xy = forward transform with the domain's reference
     t = TowerConfig(name="t", lat=float(lat), lon=float(lon), z_m=2.0)
     t.compute_local_xy(rlat, rlon)
